@@ -2,6 +2,7 @@ import PMV.Sexp
 import PMV.Driver.Cli
 import PMV.Driver.Printer
 import PMV.Driver.Fold
+import PMV.Driver.Strings
 open PMV
 
 def dispatch (cmd : String) (args : List Sexp) : Option String :=
@@ -13,6 +14,9 @@ def dispatch (cmd : String) (args : List Sexp) : Option String :=
   | "cli.violations" => Driver.Cli.violations args
   | "unparse" => Driver.Printer.unparse args
   | "unparse.expr" => Driver.Printer.unparseExpr args
+  | "ministring" => Driver.Strings.ministring args
+  | "strlex" => Driver.Strings.strlex args
+  | "esc.violations" => Driver.Strings.escViolations args
   | "fold" => Driver.Fold.fold args
   | "pyint.eval" => Driver.Fold.pyintEval args
   | "gram.check" => Driver.Printer.gramCheck args
